@@ -48,26 +48,30 @@ SEED_FACTOR = [1.0, 1.07, 0.93, 1.31, 0.77, 1.9]
 SHEAR = 6.0e10
 
 
-def cases(tier, seed):
-    f = SEED_FACTOR[seed % len(SEED_FACTOR)]
-    x = VISC_RATIO[seed % len(VISC_RATIO)]
-    out = []
+def configs(tier, seed, pair):
+    """The configuration sub-lattice run inside one case: l_max x truncation x obliquity slot x (MOI factor, separation)."""
     thorough = tier == 'thorough'
     obls = OBLIQ if thorough else OBLIQ_QUICK
-    for entry in ('single', 'dual', 'bare'):
-        for lmax in LMAX:
-            for N in TRUNC:
-                for ob in obls:
-                    for pi_, pair in enumerate(PAIRS):
-                        if thorough:
-                            combos = [(moi, sep) for moi in MOI for sep in SEP]
-                        else:                       # physical grids cut: one MOI factor / separation per pair, rotated by the seed
-                            combos = [(MOI[(pi_ + seed) % 2], SEP[(pi_ + lmax + seed) % 2])]
-                        for moi, sep in combos:
-                            for rheo in RHEOS:
-                                out.append(dict(entry=entry, rheo=rheo, lmax=lmax, N=N, obl=ob, pair=pi_, moi=moi, sep=sep * f,
-                                                x=x, f=f, tier=tier))
+    out = []
+    for lmax in LMAX:
+        for N in TRUNC:
+            for ob in obls:
+                if thorough:
+                    combos = [(moi, sep) for moi in MOI for sep in SEP]
+                else:                       # physical grids cut: one MOI factor / separation per configuration, rotated
+                    combos = [(MOI[(pair + seed + N // 2) % 2], SEP[(pair + lmax + seed) % 2])]
+                for moi, sep in combos:
+                    out.append(dict(lmax=lmax, N=N, obl=ob, moi=moi, sep=sep))
     return out
+
+
+def cases(tier, seed):
+    """One case = (entry point, rheology, mass pair); it runs the whole configuration sub-lattice (cut along the rheology because the
+    compliance helpers of TidalPy are numba functions without an on-disk cache: ~5 s JIT per rheology and worker process)."""
+    f = SEED_FACTOR[seed % len(SEED_FACTOR)]
+    x = VISC_RATIO[seed % len(VISC_RATIO)]
+    return [dict(entry=entry, rheo=rheo, pair=pi_, x=x, f=f, tier=tier, seed=seed)
+            for pi_ in range(len(PAIRS)) for entry in ('single', 'dual', 'bare') for rheo in RHEOS]
 
 
 def _body(mass, f):
@@ -97,9 +101,7 @@ class _Viol:
         return [(s, d) for s, d in self.d.items()]
 
 
-def run_case(c):
-    from mc import env
-    env.tidalpy()
+def _run_config(c):
     import numpy as np
     from mc.refmodels import mode_sum as ms
     from TidalPy.tides.modes.mode_manipulation import find_mode_manipulators
@@ -112,7 +114,7 @@ def run_case(c):
     B = [_body(m1, f), _body(m2, f)]
     for b in B:
         b['C'] = c['moi'] * b['m'] * b['R'] ** 2
-    a = c['sep'] * (B[0]['R'] + B[1]['R'])
+    a = c['sep'] * f * (B[0]['R'] + B[1]['R'])
     n = math.sqrt(G * (m1 + m2) / a ** 3)
     mu = SHEAR * f
     eta = mu * c['x'] / n
@@ -468,8 +470,38 @@ def run_case(c):
                         cmp_arr('spin+e-array', 'de_dt single', o['dedt_s'][i], S[(sr, e)]['dedt_s'], kin / (2 * a * e) * (sM + sw), w)
 
     admitted = stats['balances'] > 0 or bool(V.d)
-    status = 'pass' if admitted else 'inadmissible:every call of the case dies with a C10 defect'
-    return dict(status=status, viol=V.list(), obs=(entry, rheo, lmax, N, obl, c['pair'], c['moi'], tuple(obs)), stats=stats)
+    nontrivial = [o for o in obs if float(o) != 0.0]
+    return dict(admitted=admitted, viol=V.list(), obs=tuple(obs) if nontrivial else None, stats=stats)
+
+
+def run_case(c):
+    """c: dict(entry, rheo, pair, x, f, tier, seed [, only_config=dict(lmax, N, obl, moi, sep)] [, only=(spin ratio, e)])."""
+    from mc import env
+    env.tidalpy()
+    cfgs = [c['only_config']] if c.get('only_config') else configs(c.get('tier', 'quick'), c.get('seed', 0), c['pair'])
+    viol, stats, sub_obs = {}, {}, []
+    n_adm = 0
+    for cfg in cfgs:
+        flat = dict(c)
+        flat.pop('only_config', None)
+        flat.update(cfg)
+        r = _run_config(flat)
+        n_adm += bool(r['admitted'])
+        for site, detail in r['viol']:
+            if site in viol:
+                viol[site]['count'] += detail.get('count', 1)
+                viol[site]['configs_with_this_site'] += 1
+            else:
+                d = dict(detail)
+                d['config'] = dict(cfg)
+                d['configs_with_this_site'] = 1
+                viol[site] = d
+        for k, v in r['stats'].items():
+            stats[k] = max(stats.get(k, 0.0), v) if k.startswith('worst') else stats.get(k, 0) + v
+        sub_obs.append(r['obs'])
+    status = 'pass' if n_adm else 'inadmissible:every call of every configuration dies with a C10 defect'
+    return dict(status=status, viol=list(viol.items()), obs=(c['entry'], c['rheo'], c['pair'], tuple(sub_obs)), stats=stats,
+                n_configs=len(cfgs), n_admitted_configs=n_adm, sub_obs=sub_obs)
 
 
 def replay(case):
@@ -477,22 +509,43 @@ def replay(case):
 
 
 def run(ctx):
-    from mc.core import run_lattice
+    from mc.core import run_lattice, stable_hash, HarnessError
     cs = cases(ctx.tier, ctx.seed)
+    ncfg = len(configs(ctx.tier, ctx.seed, 0))
     res = run_lattice(
-        ctx, 'mc.props.C11:run_case', cs, chunk=4, min_admitted_frac=0.7,
+        ctx, 'mc.props.C11:run_case', cs, chunk=1,
         rule='full product entry{quick_tidal_dissipation(derivatives), quick_dual_body_tidal_dissipation, bare TidalPy.dynamics functions} x '
-             'l_max 2..7 x truncation {2,6,20} x rheology (10) x obliquity slot (None + values) x mass pair (3) x MOI factor x separation; '
-             'inside each case the full grid spin ratio(s) x e with scalar inputs plus spin+e-array, all-array and e-array forms; '
-             'distinct = distinct tuples of returned da/dt values',
+             'l_max 2..7 x truncation {2,6,20} x rheology (10) x obliquity slot (None + values) x mass pair (3) x (MOI factor, separation) '
+             '(evaluations = configurations; the pool is fed one (entry, rheology, mass pair) bundle per task); inside each configuration the '
+             'full grid spin ratio(s) x e with scalar inputs plus spin+e-array, all-array and e-array forms; '
+             'distinct = distinct non-zero tuples of returned da/dt values per configuration',
         exhaustive=True)
+    distinct = set()
     agg = {}
+    n_adm = 0
     for r in res:
+        n_adm += r.get('n_admitted_configs', 0)
+        for o in r.get('sub_obs') or []:
+            if o is not None:
+                distinct.add(stable_hash(o))
         for k, v in (r.get('stats') or {}).items():
             agg[k] = max(agg.get(k, 0.0), v) if k.startswith('worst') else agg.get(k, 0) + v
-    ctx.coverage.update(real_calls=agg.get('calls', 0), calls_dying_with_a_C10_defect=agg.get('c10_defect_calls', 0),
+    total = len(cs) * ncfg
+    ctx.coverage['evaluations'] = ctx.coverage['evaluations'] - len(cs) + total
+    ctx.coverage['distinct_nontrivial'] = len(distinct)
+    ctx.coverage['samples'] = [dict(c, only_config=configs(ctx.tier, ctx.seed, c['pair'])[i * 7 % ncfg])
+                               for i, c in enumerate(cs[::max(1, len(cs) // 3)][:3])]
+    for v in ctx.violations:
+        cfg = (v.get('detail') or {}).get('config')
+        if cfg and 'only_config' not in v['case']:
+            v['case'] = dict(v['case'], only_config=cfg)
+    ctx.coverage.update(real_calls=agg.get('calls', 0), calls_dying_with_a_C10_defect=agg.get('c10_defect_calls', 0), bundles=len(cs),
+                        configurations_per_bundle=ncfg, configurations_admitted=n_adm,
                         balances_checked=agg.get('balances', 0), dedt_at_e0_checked=agg.get('dedt_e0_checked', 0),
                         worst_energy_residual=agg.get('worst_energy'), worst_angular_momentum_residual=agg.get('worst_angmom'),
                         worst_array_vs_scalar=agg.get('worst_array'), tolerance=TOL, tolerance_array=TOL_ARR)
-    ctx.note('calls={calls} (C10-defect calls not admitted: {c10_defect_calls}) balances={balances} de/dt(e=0) checks={dedt_e0_checked} '
-             'worst: energy {worst_energy:.1e} angular momentum {worst_angmom:.1e} array {worst_array:.1e}'.format(**agg))
+    ctx.note('configurations={n} (admitted {adm}) calls={calls} (C10-defect calls not admitted: {c10_defect_calls}) balances={balances} '
+             'de/dt(e=0) checks={dedt_e0_checked} worst: energy {worst_energy:.1e} angular momentum {worst_angmom:.1e} array {worst_array:.1e}'
+             .format(n=total, adm=n_adm, **agg))
+    if n_adm < 0.7 * total:            # vacuity guard on configurations
+        raise HarnessError(f'vacuity guard: only {n_adm}/{total} configurations admitted (< 70%); infrastructure problem, no verdict')
